@@ -335,12 +335,14 @@ def main(argv=None):
           f"{' (time budget reached)' if stopped else ''}{' (exhaustive)' if exhaustive else ''}")
     if labels:
         print("classes: " + ", ".join(f"{k}={v}" for k, v in sorted(labels.items())))
-    if rc == 2:
-        return 2
     if viol_lines:
+        # failures found by the oracles are reported even if other cases died inside the harness (a broken library
+        # routinely hands the harness data it cannot digest, e.g. empty arrays); a harness error alone is exit 2
         for ln in dict.fromkeys(viol_lines):
             print(ln)
         return 1
+    if rc == 2:
+        return 2
     return 0
 
 
